@@ -69,6 +69,7 @@ def DqItem.value (env : Env) : DqItem → Bytes
 def DqItem.newlines : DqItem → Nat
   | .nl => 1
   | .cont => 1
+  | .env name dflt => nlCount name + (match dflt with | some d => nlCount d | none => 0)   -- every newline is a line
   | _ => 0
 
 /-- what must *not* follow an item for the item boundary to be where it is written -/
